@@ -81,3 +81,34 @@ Section Facts.
     all: try (do 4 eexists; split; [eassumption|]; eassumption).
   Qed.
 End Facts.
+
+(* ---- completeness: when every check holds, the device goes on (so [checked] is exactly the device's criterion) ---- *)
+Lemma pubkey_eqb_refl k : k <> PubOther -> pubkey_eqb k k = true.
+Proof.
+  destruct k; cbn; intros H; [| |contradiction].
+  - now rewrite Nat.eqb_refl, bytes_eqb_refl.
+  - apply bytes_eqb_refl.
+Qed.
+
+Section Complete.
+  Variable O_der : bool -> bytes -> bool.
+  Variable O_rfc : bytes -> option Z.
+  Variable O_verify : bytes -> sigscheme -> N -> bytes -> list bytes -> bool.
+  Variable O_hash : N -> bytes -> bytes.
+  Variable O_hmac : N -> bytes -> bytes -> bytes.
+  Variable O_pubkey : val -> option pubkey.
+
+  Theorem verify_owner_complete d b61 resps to1d k pdn :
+    k <> PubOther ->
+    checked O_der O_rfc O_verify O_hash O_hmac O_pubkey d b61 resps to1d k pdn ->
+    verify_owner O_der O_rfc O_verify O_hash O_hmac O_pubkey d (61%N, b61) resps to1d = Proceed k pdn.
+  Proof.
+    intros NK (prot & unprot & sig & ovh & num & hm & si & xa & halg & hval & mx & hh & pk & es & H).
+    cbn zeta in H. destruct H as (E61 & HA & HH & PK & OK & SV & PN & KX & FE & VH & VM & VE & OWN & T1).
+    unfold verify_owner. cbn [N.eqb Pos.eqb negb]. rewrite E61. rewrite HA. rewrite HH, bytes_eqb_refl. cbn [negb].
+    rewrite PK, OK, SV. rewrite bytes_eqb_refl. cbn [negb]. rewrite PN, KX. cbn [negb]. rewrite FE.
+    rewrite VH, VM, VE. cbn [is_ok negb]. rewrite OWN. rewrite (pubkey_eqb_refl k NK). cbn [negb].
+    destruct to1d as [tb|]; [|reflexivity].
+    destruct T1 as (tprot & u & tpl & tsig & ET & ST). rewrite ET, ST. reflexivity.
+  Qed.
+End Complete.
